@@ -71,7 +71,13 @@ func c07Setup(c *mon.Ctx) error {
 	return nil
 }
 
-func c07Compare(c *mon.Ctx, o *mon.Obj, full mon.Snap, fullRS flags, reg lint.Registry, label, desc, day string) {
+func c07Compare(c *mon.Ctx, orig *mon.Obj, full mon.Snap, fullRS flags, reg lint.Registry, label, desc, day string) {
+	// every compared run gets its own fresh parse: a lint that modifies the parsed object would otherwise
+	// leave the same modification behind for both sides of the comparison
+	o := orig.Reparse()
+	if o == nil {
+		return
+	}
 	rs, pv, _ := o.Lint(reg)
 	c.R.Count("evaluations", 1)
 	if pv != nil || rs == nil {
@@ -131,6 +137,9 @@ func init() {
 			}
 			day := today()
 			g := lint.GlobalRegistry()
+			if fo := o.Reparse(); fo != nil {
+				o = fo
+			}
 			rs, pv, _ := o.Lint(g)
 			c.R.Count("evaluations", 1)
 			if pv != nil || rs == nil {
